@@ -91,13 +91,18 @@ def sQsa := ofString "qsa}"
 def sEncB64 := ofString "encb64u:"
 def sDecB64 := ofString "decb64u:"
 
+/-- a buffer's content seen as a C string: up to the first NUL -/
+def cstr : Bytes → Bytes
+  | [] => []
+  | b :: rest => if b = 0 then [] else b :: cstr rest
+
 /-- `${qsa}`: append the query string, joined by '?' or '&' -/
 def qsaAppend (url : UrlParts) (flags : Nat) (out : Bytes) : Bytes :=
   match url.query with
   | none => out
   | some q =>
     -- strchr(b->ptr, '?') looks at the C string (up to the first NUL)
-    let hasQ := (out.takeWhile (· ≠ 0)).contains qmark
+    let hasQ := (cstr out).contains qmark
     let out' := if hasQ then (if q.isEmpty then out else out ++ [38]) else out ++ [qmark]
     out' ++ burlAppend flags q []
 
